@@ -90,7 +90,8 @@ match(const coap_str_const_t *text, const coap_str_const_t *pattern,
         remaining_length = 0;
       }
 
-      if ((match_prefix || pattern->length == token_length) &&
+      if ((match_prefix ? pattern->length <= token_length :
+           pattern->length == token_length) &&
           memcmp(token, pattern->s, pattern->length) == 0)
         return 1;
     }
